@@ -66,6 +66,12 @@ func c04Callback(r *core.Run, idx int, rng *rand.Rand) {
 	case 2:
 		sc.S.ACS = "https://" + strings.ToLower(canary) + ".sp.example/acs?a=1&b=2"
 	}
+	if idx%13 == 5 {
+		// a stored request whose binding is none the callback can deliver through: however the reply travels, a Success
+		// assertion in it is signed
+		sc.S.Binding = undeliverableBindings[rng.Intn(len(undeliverableBindings))]
+		r.Count("stored_bindings_that_cannot_be_delivered_through", 1)
+	}
 	// in some cases signing cannot succeed: then no Success may leave the IdP (certainly not an unsigned one)
 	sigfail := ""
 	if idx%9 == 4 {
